@@ -74,7 +74,7 @@ PROPS = {
     },
     "C06": {
         "n": {"quick": 2400, "thorough": 60000}, "diff_is_failure": True, "judge": True, "trivial_outs": set(), "shrink": True,
-        "rule": "servers pre-loaded with a sentinel and one key of every type (string, integer, empty string, list, set, hash, sorted set incl. inf score, stream incl. an ID near u64::MAX with a group, 1000-element list); each probe is either a command: a name drawn from the dispatch table read from server.rs at run time, with 0-5 arguments drawn from keys of every type, 27 boundary numbers (0, +-1, i64/u64/usize/isize min/max and their neighbours, +-2^31, 2^32, 1e300, nan, inf, -0, empty, non-digits, 512 MB), option words, non-bulk and nested-array arguments; or raw hostile bytes (absurd declared lengths for * % ~ $, 100000 nested arrays, truncated frames, random bytes); after every probe a fresh connection must get PONG and the sentinel value within 4 s and the process must be alive; one evaluation = one probe; non-trivial/distinct = distinct probes (all are counted: every probe is followed by the liveness oracle)",
+        "rule": "servers pre-loaded with a sentinel and one key of every type (string, integer, empty string, list, set, hash, sorted set incl. inf score, stream incl. an ID near u64::MAX with a group, 1000-element list); each probe is either a command: a name drawn from the dispatch table read from server.rs at run time, with 0-5 arguments drawn from keys of every type, 27 boundary numbers (0, +-1, i64/u64/usize/isize min/max and their neighbours, +-2^31, 2^32, 1e300, nan, inf, -0, empty, non-digits, 512 MB), option words, non-bulk and nested-array arguments; or raw hostile bytes (absurd declared lengths for * % ~ $; 60000-100000 levels of nesting through every recursive position of the parser: array element, set member, map key, map value after a scalar key, and random mixtures; truncated frames, random bytes; one fixed case runs every hostile family whatever the seed); after every probe a fresh connection must get PONG and the sentinel value within 4 s and the process must be alive; one evaluation = one probe; non-trivial/distinct = distinct probes (all are counted: every probe is followed by the liveness oracle)",
         "explanation": "theorems: guards imply in-range operations for the modelled handlers and the parser; tie: boundary enumeration with a liveness oracle against a live server process",
         "trusted_base": ["the liveness oracle of harness/src/c06.rs (PING + GET sentinel on a fresh connection, process status)"],
         "assumptions": ["deadlock, lock poisoning, starvation and physical memory exhaustion are outside what the model can exhibit (partial)", "SRANDMEMBER with a huge negative count performs |count| iterations (known finding, work not bounded)"],
